@@ -243,6 +243,14 @@ def with_look(R, d):
             d.leaves.append(Leaf(R.choice(['regex', 'skip']), R.choice(['[ \\n]', ' ', '\\r?\\n'])))
         d.assign_variants()
         return d
+    if R.random() < 0.2:
+        # plain alternative | alternative ending in a look-ahead, in one leaf
+        l.pat = R.choice(['!', '\\|\\|?', '=', '\\n', '#']) + '|(?:' + l.pat + ')' + R.choice(['(?-u:\\b)', '$', '(?m:$)', '(?-u:\\b{end})'])
+        l.look = True
+        if l.prio is None:
+            l.prio = 10
+        d.assign_variants()
+        return d
     if R.random() < 0.5:
         l.pat = '(?:' + l.pat + ')' + R.choice(LOOKS_END)
     else:
@@ -293,6 +301,12 @@ def fixed_corpus():
     # a late-accept state (entered by the look-ahead byte) that still has outgoing edges into a longer match
     out.append(Def([L('regex', '[a-z]+(?-u:\\b)'), L('regex', '[a-z]+ !'), L('token', ' '), L('regex', '[0-9]+(?m:$)'), L('regex', '[0-9]+\\n\\n'),
                     L('regex', '\\n')], origin='fixed:look-late'))
+    # one leaf with a plain alternative and an alternative ending in a look-ahead: the same leaf then owns an early-accept
+    # state and a late-accept state with the same outgoing edges (they must not be identified with each other)
+    out.append(Def([L('regex', '!|not(?-u:\\b)', prio=10), L('regex', '[a-z]+'), L('skip', ' +')], origin='fixed:look-alt'))
+    out.append(Def([L('regex', 'or(?-u:\\b)|\\|\\|?', prio=3), L('regex', '[a-z]+'), L('skip', ' +'), L('regex', '//[^\\n]*(?:\\n|$)')],
+                   origin='fixed:look-alt2'))
+    out.append(Def([L('regex', 'or(?-u:\\b)|\\|\\|?', prio=3), L('regex', '[a-z]+'), L('skip', ' +')], origin='fixed:look-alt3'))
     # the same text matched by two patterns, one of them only in some contexts, at different priorities
     out.append(Def([L('regex', '[a-z]+'), L('regex', 'end$', prio=100), L('token', 'a', prio=3), L('regex', 'a(?-u:\\b)', prio=10), L('skip', ' ')],
                    origin='fixed:look-prio'))
@@ -322,6 +336,9 @@ def fixed_corpus():
                    origin='fixed:callbacks2'))
     for k, lf in enumerate(out[-1].leaves):
         lf.cb_form = (k + 2) % 4
+    # bumping callbacks on a byte source (a bump may land exactly on the end of the input)
+    out.append(Def([L('regex', 'a+', cb=20), L('regex', 'b+', cb=21, value=True), L('skip', '#', cb=22), L('regex', '(?-u)[\\x80-\\xff]+'), L('token', 'c')],
+                   utf8=False, origin='fixed:callbacks-bytes'))
     # case-insensitive
     out.append(Def([L('token', 'élan', ignore_case=True), L('regex', '[a-z]+k', ignore_case=True), L('token', 'ǆ', ignore_case=True),
                     L('skip', ' ')], origin='fixed:icase'))
